@@ -300,6 +300,15 @@ Proof.
   exact (i_closed _ _ _ _ (frun_inv tr _ _ (finit_inv Hx) Ha) Hc).
 Qed.
 
+(* closure at the level of KEYS (what a digest-keyed store answers): whatever node the destination
+   "holds" by key has all its successors held -- needs mt_consistent (one digest, one successor set) *)
+Lemma fclosed_keys tr fs :
+  ext_ok -> closed_nodes g d0 -> mt_consistent g -> faccepts g c ext d0 tr = Some fs ->
+  forall n x, has g (dst (fb fs)) n = true -> In x (succ' g n) -> has g (dst (fb fs)) x = true.
+Proof.
+  intros Hx Hc Hmt Ha n x Hn Hsx. eapply key_closed; eauto. eapply fclosed_always; eauto.
+Qed.
+
 Lemma fclosed_every_prefix tr1 tr2 fs :
   ext_ok -> closed_nodes g d0 -> faccepts g c ext d0 (tr1 ++ tr2) = Some fs ->
   exists fs1, faccepts g c ext d0 tr1 = Some fs1 /\ closed_nodes g (dst (fb fs1)).
